@@ -311,6 +311,8 @@ func runC15(r *Run) {
 		filterCase("filter[one group, one gate]", []uint64{0}, [][2]uint64{{0, 1}}, []int{2}, 2),
 		// the number of selector polynomials is the number of groups in the description (plonky2 strips
 		// groups.len() constants), also when the last group has no gate
+		// group bounds are read from the description, not derived from one another
+		filterCase("filter[two groups, the second starting inside the first]", []uint64{0, 0, 1}, [][2]uint64{{0, 2}, {1, 3}}, []int{1, 2, 2}, 3),
 		filterCase("filter[two groups and a third without gates]", []uint64{0, 0, 1}, [][2]uint64{{0, 2}, {2, 3}, {3, 3}}, []int{1, 2, 2}, 3),
 	}
 	for _, c := range fcs {
